@@ -106,11 +106,18 @@ class Monitor:
                    "got": result, "tolerance": float(tol)}
         try:
             accept, out = result
+        except (TypeError, ValueError):
+            ctx.violation("malformed result", witness)
+            return True
+        q1 = q2 = None
+        try:
             q1 = (F(out[0][0]), F(out[0][1]))
             q2 = (F(out[1][0]), F(out[1][1]))
         except (TypeError, ValueError, IndexError, OverflowError):
-            ctx.violation("malformed result", witness)
-            return True
+            if accept:      # what accompanies a rejection is not specified (the input back, None, ...)
+                ctx.violation("malformed result", witness)
+                return True
+            ctx.count("observed: rejection returned without a segment")
         shrunk = ((rect[0][0] + tol, rect[0][1] + tol), (rect[1][0] - tol, rect[1][1] - tol))
         grown = ((rect[0][0] - tol, rect[0][1] - tol), (rect[1][0] + tol, rect[1][1] + tol))
         inner = interval_inside(p1, p2, shrunk)
@@ -342,11 +349,40 @@ def one_case(ctx, mon, segment, bounds):
                                     "exception": repr(exc)})
 
 
+def rectangle_changes(ctx, mon):
+    """A segment clipped against one rectangle, then - after exactly 2^16-1, 2^16 and 2^16+1 changes of
+    rectangle during which its vertices are never used and only a handful of other vertices are seen -
+    against another rectangle in which its vertices have other region codes.  (What a per-vertex memo
+    invalidated by a small wrapping epoch tag gets wrong; the in-between calls go to the unmonitored
+    function, only the first and the last call are judged.)"""
+    from plotink import plot_utils
+    from .. import longrun
+    raw = longrun.raw(plot_utils.clip_segment)
+    rect_a, rect_b = [[0.0, 0.0], [10.0, 10.0]], [[20.0, 20.0], [30.0, 30.0]]
+    fillers = ([[0.0, 0.0], [100.0, 100.0]], [[0.0, 0.0], [101.0, 101.0]])
+    for changes in (65535, 65536, 65537, 131072):
+        if ctx.budget(1, 1) != 1:
+            break
+        mon.code_calls = 0
+        plot_utils.clip_segment([[5.0, 5.0], [25.0, 25.0]], rect_a)
+        for i in range(changes - 1):
+            mon.code_calls = 0
+            raw([[1.0 + i % 3, 1.0], [2.0, 2.0 + i % 2]], fillers[i % 2])
+        mon.code_calls = 0
+        ctx.case(["history: same segment, another rectangle, after exactly 2^16 +- 1 rectangle changes"],
+                 ("rect-changes", changes))
+        plot_utils.clip_segment([[5.0, 5.0], [25.0, 25.0]], rect_b)
+
+
 def run(ctx):
     from .. import wtests
     wtests.run(ctx)
     mon = install(ctx)
     rng = ctx.rng
+    from .. import core as _core
+    if _core.BUDGET_SCALE == 1:
+        rectangle_changes(ctx, mon)
+        ctx.need("history: same segment, another rectangle, after exactly 2^16 +- 1 rectangle changes", 4)
     n = ctx.budget(45_000, 700_000)
     for _ in range(n):
         if not ctx.alive():
